@@ -19,10 +19,16 @@ import (
 	"time"
 )
 
-const (
-	verif = "/verif"
-	goBin = "/opt/veriftools/go1.26.8/bin/go"
-)
+const goBin = "/opt/veriftools/go1.26.8/bin/go"
+
+// verif is the root of the verification tree: /verif for the registered
+// commands, a snapshot directory for background runs started with `vp run`.
+var verif = func() string {
+	if r := os.Getenv("VERIF_ROOT"); r != "" {
+		return r
+	}
+	return "/verif"
+}()
 
 type tierCfg struct {
 	Count   int64 // plans per worker
